@@ -97,12 +97,28 @@ func c14StdlibSection(t *sim.Tape) (ref, lib string) {
 
 func c14Run(rc *sim.RunCtx) {
 	t := rc.T
-	g := newGen(t, genConfig{Modules: true, Hosts: true, Consts: t.Bool(1, 3), CallMark: true, NoTrace: true, MaxStmts: 12})
+	// in a fifth of the runs the host passes no globals object (host functions arrive as parameters); the script's own
+	// global is then written for the first time inside a function that is a marked call site
+	nilGlobals := t.Bool(1, 5)
+	g := newGen(t, genConfig{Modules: true, Hosts: true, Consts: t.Bool(1, 3), CallMark: true, NoTrace: true, NilGlobals: nilGlobals, MaxStmts: 12})
 	src, mods := g.program()
-	src = strings.Replace(src, sim.Prelude, sim.PreludeCall, 1)
 	warm := t.Bool(2, 3)
-	if warm {
-		src = strings.Replace(src, sim.PreludeCall, sim.PreludeCall+c14Warmup, 1)
+	if nilGlobals {
+		rc.Probe("run-without-globals-object")
+		const genHeader = "param (PA, PB, log, op, choose, call, trace, WID)\nglobal GV\nGV = PA*7 + 1\n"
+		if !strings.HasPrefix(src, genHeader) {
+			panic("harness: unexpected header of a NilGlobals script")
+		}
+		hdr := "param (PA, PB, log, op, choose, call, trace, WID, callrep, calleach)\nglobal GV\n"
+		if warm {
+			hdr += c14Warmup
+		}
+		src = hdr + "zinit := func() { GV = 5; return GV }\nlog(\x01zinit\x02\x03)\n" + src[len(genHeader):]
+	} else {
+		src = strings.Replace(src, sim.Prelude, sim.PreludeCall, 1)
+		if warm {
+			src = strings.Replace(src, sim.PreludeCall, sim.PreludeCall+c14Warmup, 1)
+		}
 	}
 	if !strings.ContainsAny(src, "\x01\x04\x05") {
 		rc.Discard = "no-marked-call-site"
@@ -164,7 +180,17 @@ func c14Run(rc *sim.RunCtx) {
 			vm.SetBytecode(bc)
 			sc.Steps = 0
 		}
-		ret, err := vm.Run(w.Globals, ugo.Int(1))
+		var ret ugo.Object
+		var err error
+		if nilGlobals {
+			args := []ugo.Object{ugo.Int(1), ugo.String("pb")}
+			for _, n := range []string{"log", "op", "choose", "call", "trace", "WID", "callrep", "calleach"} {
+				args = append(args, w.Globals[n])
+			}
+			ret, err = vm.Run(nil, args...)
+		} else {
+			ret, err = vm.Run(w.Globals, ugo.Int(1))
+		}
 		// strip the history entries of the call() bookkeeping: none are logged, histories are comparable as they are
 		return c08Result{out: sim.MakeOutcome(ret, err, w.Hist)}, w, pool
 	}
